@@ -454,6 +454,69 @@ pub fn run(ctx: &mut Ctx) {
     });
 
     // ------------------------------------------------ tag parsers x all 65536 types
+    // ------------------------------------------------ the 16 tag parsers on a well-formed extension of their own type at the
+    // start of a buffer of 2^32 + d and 2^31 + d bytes (d = 0 .. the extension's size + 8; lazily mapped zero
+    // pages): availability computed in 32 bits; the tag parser must still agree with the generic parser
+    ctx.floor("giant-buffers.cases", 200);
+    ctx.sweep("tag-parsers-giant-buffers", 16, |ctx, idx| {
+        let (name, own, p) = TAG_PARSERS[idx as usize];
+        let mut rng = Rng::new(idx ^ 0x6B16);
+        let mut buf = match gen::lazy_zeroed((1usize << 32) + 4096) {
+            Some(b) => b,
+            None => {
+                ctx.unjudged("giant-buffer-not-allocatable");
+                return;
+            }
+        };
+        for _ in 0..3 {
+            let a = loop {
+                let k = rng.below(gen::EXT_GENERATORS as u64) as usize;
+                let a = gen::ext_variant(&mut rng, gen::TINY, k);
+                if a.wire_type() == own && !matches!(a, AExt::Unknown(..) | AExt::Grease(..)) && a.to_bytes().len() > 4 && a.to_bytes().len() < 600 {
+                    break a;
+                }
+                if own == 22 || own == 23 {
+                    // types whose only content is empty: nothing to mis-measure
+                    break a;
+                }
+            };
+            let e = a.to_bytes();
+            if e.len() >= 600 || a.wire_type() != own {
+                continue;
+            }
+            buf[..e.len()].copy_from_slice(&e);
+            let small = parse_tls_extension(&e).ok().map(|(_, x)| format!("{:.300?}", x));
+            for base in [1usize << 32, 1 << 31] {
+                for d in 0..(e.len() + 8) {
+                    let input = &buf[..base + d];
+                    let got = ctx.guarded(name, &e, || {
+                        let r = p(input);
+                        let g = parse_tls_extension(input);
+                        let rs = r.as_ref().ok().map(|(rem, x)| (format!("{:.300?}", x), rem.len()));
+                        let gs = g.as_ref().ok().map(|(rem, x)| (format!("{:.300?}", x), rem.len()));
+                        (rs, gs)
+                    });
+                    ctx.eval();
+                    ctx.count("giant-buffers.cases");
+                    if let Some((rs, gs)) = got {
+                        let want = small.clone().map(|x| (x, base + d - e.len()));
+                        if rs != want || gs != want {
+                            ctx.violation(
+                                format!("c05:tag:{}:differs-on-giant-buffer", name),
+                                json!({"parser": name, "extension_len": e.len(), "buffer_len": base + d, "tag_parser": format!("{:.200?}", rs), "generic_parser": format!("{:.200?}", gs), "on_the_extension_alone": small, "extension_hex": hex_short(&e)}),
+                            );
+                            return;
+                        }
+                    }
+                }
+            }
+            for b in buf[..e.len()].iter_mut() {
+                *b = 0;
+            }
+        }
+        ctx.shape(&("giant", idx));
+    });
+
     ctx.sweep("tag-parsers", 16 * 16, |ctx, idx| {
         let (name, own, p) = TAG_PARSERS[(idx / 16) as usize];
         let chunk = idx % 16;
